@@ -172,7 +172,7 @@ def run_jobs(ctx, out, jobs, label):
         bad.add(tid)
         first = min(ln for ln, cl in fails if set(cl) & CLAUSES)
         prep = job["prep"]
-        case = {"leg": "prep", "prep": prep, "seed": job["seed"], "decisions": [(e["ev"], e["h"], e["k"]) for e in trace["events"] if e["ev"] not in ("Race", "RaceStuck")]}
+        case = {"leg": "prep", "prep": prep, "seed": job["seed"], "decisions": [(e["ev"], e["h"], e["k"]) for e in trace["events"] if e["ev"] not in ("Race", "RaceStuck", "Livelock")]}
         sig = {"leg": "prep", "clauses": mine, "fault": prep["flt"]["kind"], "hosts": prep["H"], "executors": prep["K"]}
         out.violations.append(Violation(",".join(mine), case, signature=sig, detail="prep trace %s first failing event %d (%s)" % (tid, first, trace["events"][first - 1]["ev"])))
     for tid, lines in v.l2.items():
